@@ -121,7 +121,8 @@ def run_actions(desc, ctx):
                     except Exception as e:  # noqa
                         exc = e
                     ob[mode] = (list(calls), exc, s.steps)
-            _, abort, sch = harness.sched_case(fn, seed=desc['seed'] * 31 + si, policy=pol, horizon=600.0)
+            _, abort, sch = harness.sched_case(fn, seed=desc['seed'] * 31 + si, policy=pol, line_p=harness.line_p_for(desc['seed'] * 31 + si, 4, 0.2), horizon=600.0)
+            ctx.count('mon.statement_level_preemption_points', sch.line_points)
             ctx.evals()
             info = {'uris': uris, 'failing': sorted(failing), 'args': core.jsonable(args), 'schedule': pol}
             rp = dict(desc)
@@ -218,7 +219,8 @@ def run_open(desc, ctx):
                     exc = e
                 ob['exc'] = exc
                 ob['is_open'] = sw._is_open
-            _, abort, sch = harness.sched_case(fn, seed=desc['seed'] * 53 + si, policy=('random', 'pct', 'rtb')[si % 3], horizon=600.0)
+            _, abort, sch = harness.sched_case(fn, seed=desc['seed'] * 53 + si, policy=('random', 'pct', 'rtb')[si % 3], line_p=harness.line_p_for(desc['seed'] * 53 + si, 4, 0.2), horizon=600.0)
+            ctx.count('mon.statement_level_preemption_points', sch.line_points)
             ctx.evals()
             info = {'uris': uris, 'open_fails_for': sorted(failing), 'form': form}
             rp = dict(desc)
